@@ -59,6 +59,40 @@ def labelled_result(ctx: Ctx, fn: FunctionInfo, seen: Optional[set] = None, dept
     return True, ""
 
 
+_PRIMITIVES = ("random_int", "random_float", "random_bool", "random_str")
+
+
+def _is_primitive_caller(ctx: Ctx, fn: FunctionInfo, name: str) -> bool:
+    """*name* is a loop variable (or a local) bound to the elements of a module-level table all of whose callables are
+    operator.methodcaller(<a base-type primitive of the decider>): calling it draws a base value"""
+    def callers_of(table_expr: ast.AST) -> Optional[list]:
+        if isinstance(table_expr, ast.Name):
+            for st in fn.module.tree.body:
+                tg = st.targets[0] if isinstance(st, ast.Assign) and len(st.targets) == 1 else st.target if isinstance(st, ast.AnnAssign) else None
+                if isinstance(tg, ast.Name) and tg.id == table_expr.id and getattr(st, "value", None) is not None:
+                    return callers_of(st.value)
+            return None
+        if isinstance(table_expr, (ast.Tuple, ast.List)):
+            out = []
+            for el in table_expr.elts:
+                sub = [x for x in ast.walk(el) if isinstance(x, ast.Call) and call_name(x) == "methodcaller"]
+                if len(sub) != 1 or not (sub[0].args and isinstance(sub[0].args[0], ast.Constant)):
+                    return None
+                out.append(sub[0].args[0].value)
+            return out
+        if isinstance(table_expr, ast.Dict):
+            return callers_of(ast.Tuple(elts=list(table_expr.values), ctx=ast.Load()))
+        if isinstance(table_expr, ast.Call) and isinstance(table_expr.func, ast.Attribute) and table_expr.func.attr in ("items", "values"):
+            return callers_of(table_expr.func.value)
+        return None
+    for loop in walk_local(fn.node):
+        if isinstance(loop, ast.For) and any(isinstance(t, ast.Name) and t.id == name for t in ast.walk(loop.target)):
+            names = callers_of(loop.iter)
+            if names and all(n in _PRIMITIVES for n in names):
+                return True
+    return False
+
+
 def _labelled_expr(ctx: Ctx, fn: FunctionInfo, e: ast.AST, seen: set, depth: int, at: ast.AST) -> tuple[bool, str]:
     if isinstance(e, ast.Tuple):
         for x in e.elts:
@@ -74,6 +108,8 @@ def _labelled_expr(ctx: Ctx, fn: FunctionInfo, e: ast.AST, seen: set, depth: int
             return True, ""
         if nm in ("random_int", "random_float", "random_bool", "random_str", "choose_options"):
             return True, ""  # base values / an existing (already labelled) node offered to the decider
+        if isinstance(e.func, ast.Name) and _is_primitive_caller(ctx, fn, e.func.id):
+            return True, ""  # draw(decider) with draw taken from a table of methodcaller("random_int") / ... entries: a base value
         if nm == "mutate" and isinstance(e.func, ast.Attribute) and any(
                 c.fullname.endswith("MetaHandlerGenerator") for c in ctx.res.receiver_classes(fn, e.func.value)):
             return True, ""  # refinement-specific mutation of a field value: the enclosing node's fold visits what it returns
